@@ -95,6 +95,7 @@ def is_ascii_letter(cp):
 
 
 def go_lower(cp):
+    """Lower case of one character (the spec's own source: Python's Unicode database, not the Go library)."""
     r = chr(cp).lower()
     return ord(r) if len(r) == 1 else cp
 
@@ -102,6 +103,37 @@ def go_lower(cp):
 def go_upper(cp):
     r = chr(cp).upper()
     return ord(r) if len(r) == 1 else cp
+
+
+FOLD_EXCLUDE = set()     # code points on which Python's and Go's Unicode data disagree (filled by tfront.py)
+
+
+def fold_ok(cp):
+    """Python's str.lower()/upper() are the FULL case mappings; the front end (Go: strings.ToLower/ToUpper) uses the
+    SIMPLE ones.  They agree wherever the full mapping of the character is a single character; where it is not
+    ('ß'.upper() = 'SS', 'İ'.lower() = 'i̇', 'ᾳ'.upper() = 'ΑΙ', ligatures, …) the spec has no independent answer,
+    so the GENERATOR does not put such a character into a case-insensitive position (probes with an explicit
+    expectation cover İ and ß; the model's case maps are compared with Go's on every code point by T-front)."""
+    if 0xd800 <= cp <= 0xdfff or cp > 0x10ffff:
+        return True     # placeholder of a hex escape without a code point: the text has no meaning (bad_escapes)
+    if cp in FOLD_EXCLUDE:
+        return False
+    c = chr(cp)
+    return len(c.lower()) == 1 and len(c.upper()) == 1
+
+
+_CASED_WIDE = []
+
+
+def cased_wide():
+    """Every code point outside ASCII that has two cases (and passes fold_ok), computed once."""
+    if not _CASED_WIDE:
+        for cp in range(0x80, 0x110000):
+            if 0xd800 <= cp <= 0xdfff:
+                continue
+            if fold_ok(cp) and go_lower(cp) != go_upper(cp):
+                _CASED_WIDE.append(cp)
+    return _CASED_WIDE
 
 
 def mk_list(t, ds):
@@ -115,10 +147,16 @@ def mk_list(t, ds):
 
 
 def dchar(cp):
-    """One character of a double-quoted literal / [[…]] class: ASCII letters in both cases."""
-    if is_ascii_letter(cp):
-        return N('Alternate', '', [CH(go_lower(cp)), CH(go_upper(cp))])
-    return CH(cp)
+    """One character of a double-quoted literal / [[…]] class — "case-insensitive" (docs/peg-file-syntax.md), however the
+    character is written: a character that has two cases matches in its lower and in its upper case (and as itself when
+    it is neither of the two: the title case letters ǅ ǈ ǋ ǲ); a character without case is the plain character."""
+    lo, up = go_lower(cp), go_upper(cp)
+    if lo == up:
+        return CH(cp)
+    ks = [CH(lo), CH(up)]
+    if cp != lo and cp != up:
+        ks.append(CH(cp))
+    return N('Alternate', '', ks)
 
 
 def denote_expr(e):
@@ -275,12 +313,10 @@ class Speller:
             return False
         return True
 
-    def options(self, cp, ctx, pos, keep_raw_letter):
+    def options(self, cp, ctx, pos):
         opts = []
         if self.raw_ok(cp, ctx, pos):
             opts.append(('raw', chr(cp)))
-        if keep_raw_letter:
-            return opts
         opts += named_spellings(cp, self.rng)
         if not (0xd800 <= cp <= 0xdfff):
             opts += numeric_spellings(cp, self.rng)
@@ -288,14 +324,14 @@ class Speller:
 
     def spell(self, cp, ctx, pos, nxt, forced=None):
         """Spelling of code point cp, to be followed by raw char `nxt` (first char of what follows)."""
-        keep = ctx in ('dq', 'dcls') and is_ascii_letter(cp) and not pos.get('in_range')
         if forced is not None:
             kind, sp = forced
             if not spell_ok_before(sp, kind, nxt):
                 raise ValueError('forced spelling %r cannot precede %r' % (sp, nxt))
             self.stats.hit('escape', kind)
+            self.hit_ci(cp, ctx, kind)
             return sp
-        opts = [o for o in self.options(cp, ctx, pos, keep) if spell_ok_before(o[1], o[0], nxt)]
+        opts = [o for o in self.options(cp, ctx, pos) if spell_ok_before(o[1], o[0], nxt)]
         if cp == 45 and ctx in ('cls', 'dcls') and nxt == '-':
             opts = [o for o in opts if o[0] != 'raw']
         raws = [o for o in opts if o[0] == 'raw']
@@ -305,7 +341,16 @@ class Speller:
         else:
             kind, sp = self.rng.choice(escs)
         self.stats.hit('escape', kind)
+        self.hit_ci(cp, ctx, kind)
         return sp
+
+    def hit_ci(self, cp, ctx, kind):
+        """Distribution of the characters in case-insensitive positions: cased or not, ASCII or not, raw or escaped."""
+        if ctx in ('dq', 'dcls') and cp <= 0x10ffff and not 0xd800 <= cp <= 0xdfff:
+            cased = go_lower(cp) != go_upper(cp)
+            title = cased and cp not in (go_lower(cp), go_upper(cp))
+            self.stats.hit('ci', '%s-%s-%s' % ('titlecase' if title else 'cased' if cased else 'uncased', 'ascii' if cp < 128 else 'wide',
+                                               'raw' if kind == 'raw' else 'escaped'))
 
     def string(self, cps, ctx, close, forced=None):
         """Spell a literal body right to left so that each spelling knows what follows it."""
@@ -591,8 +636,11 @@ LETTERS = [ord(c) for c in 'abcxyzABCXYZ']
 DIGITS = [ord(c) for c in '0179']
 SPECIAL = [ord(c) for c in '\'"[]-\\^/#{}<>()&!.*+?_ =;:,']
 CONTROL = [0, 7, 8, 9, 10, 11, 12, 13, 27, 127]
-WIDE = [0x80, 0xa0, 0xff, 0x4e2d, 0x6c49, 0x2190, 0x1f600, 0xfffd, 0x10ffff, 0x3b1, 0xe9]   # includes cased α é
-UNCASED_WIDE = [0x80, 0xa0, 0x4e2d, 0x6c49, 0x2190, 0x1f600, 0xfffd, 0x10ffff]
+WIDE = [0x80, 0xa0, 0xff, 0x4e2d, 0x6c49, 0x2190, 0x1f600, 0xfffd, 0x10ffff, 0x3b1, 0xe9]   # includes cased α é ÿ
+# cased characters worth meeting often in case-insensitive positions: Latin-1 é É ÿ(→Ÿ U+178) µ(→Μ U+39C), Greek α Ω ς,
+# Cyrillic ж Я, Latin Extended ā Ǆ ǅ ǈ ǋ ǲ (title case) ǆ, ſ(→S) K(Kelvin →k) ẞ(→ß), Georgian Ⴀ ა, fullwidth ａ, Deseret 𐐀 𐐨
+CASED_WIDE_PICKS = [0xe9, 0xc9, 0xff, 0xb5, 0x3b1, 0x3a9, 0x3c2, 0x436, 0x42f, 0x101, 0x1c4, 0x1c5, 0x1c6, 0x1c8, 0x1cb, 0x1f2, 0x17f, 0x212a, 0x1e9e,
+                    0x10a0, 0x10d0, 0xff41, 0x10400, 0x10428]
 NAMES = ['a', 'b', 'Rule', 'r1', '_x', 'END', 'Expr', 'e_2', 'Z', 'typ', 'imports', 'packag', 'x9', 'A_b_C']
 PKGS = ['p', 'main', 'calc', 'x_1', 'P2']
 PATHS = ['fmt', 'os', 'strings', 'github.com/pointlander/peg/tree', 'a/b-c/d.v2', '0/_x', 'x.y/z_9', '-', '.']
@@ -626,7 +674,14 @@ class AstGen:
         if r < 0.88:
             return self.rng.choice(CONTROL)
         if ci:
-            return self.rng.choice(UNCASED_WIDE)
+            # case-insensitive positions: uncased and cased characters outside ASCII, the cased ones from a list of picks
+            # and from ALL cased code points (cased_wide(): about 2800)
+            r2 = self.rng.random()
+            if r2 < 0.4:
+                return self.rng.choice(WIDE)
+            if r2 < 0.7:
+                return self.rng.choice(CASED_WIDE_PICKS)
+            return self.rng.choice(cased_wide())
         return self.rng.choice(WIDE)
 
     def range_bounds(self, ci):
@@ -640,7 +695,7 @@ class AstGen:
         if r < 0.7:
             lo = 48 + rng.randrange(0, 9)
             return lo, lo + rng.randrange(0, 58 - lo)
-        if r < 0.85 or ci:
+        if r < 0.85:
             # ASCII punctuation/control that stays on one side of the letters (case folding of the
             # BOUNDS then folds exactly the members)
             lo = rng.choice([0, 1, 9, 32, 33, 40, 58, 91, 93, 94, 123])
@@ -648,6 +703,13 @@ class AstGen:
             if lo < 65 <= hi or lo < 97 <= hi:
                 hi = lo
             return lo, hi
+        if ci:
+            # letters outside ASCII inside one alphabet whose two cases are parallel runs (folding the BOUNDS folds
+            # exactly the members): à-ö / À-Ö, ø-þ / Ø-Þ, α-ρ / Α-Ρ, а-я / А-Я, and uncased runs
+            base, n = rng.choice([(0xe0, 23), (0xc0, 23), (0xf8, 7), (0x3b1, 17), (0x391, 17), (0x430, 32), (0x410, 32),
+                                  (0x4e00, 30), (0x1f600, 30), (0xe000, 30)])
+            lo = base + rng.randrange(0, n)
+            return lo, lo + rng.randrange(0, n - (lo - base))
         lo = rng.choice([0x80, 0x3b1, 0x4e00, 0x1f600, 0xe000])
         return lo, lo + rng.randrange(0, 30)
 
@@ -785,10 +847,8 @@ CONTEXTS = ['lit1', 'litmid', 'dlit', 'cls1', 'cls2', 'rangelo', 'rangehi', 'neg
 def context_expr(ctx, cp):
     """(expr, forced-spelling locator) for code point cp in context ctx; None when unsuitable."""
     ci = ctx in ('dlit', 'dcls', 'drange', 'dneg')
-    if ci and ctx != 'drange' and (is_ascii_letter(cp)):
-        return None                     # an escaped letter in a case-insensitive position: see probes
-    if ctx == 'drange' and cp >= 0x80:
-        return None
+    if ci and not fold_ok(cp):
+        return None                     # no independent answer for its case forms (fold_ok)
     if ctx == 'lit1':
         e = ('lit', [cp])
         return e, {0: None}
@@ -924,6 +984,21 @@ def probes():
               'an escape that denotes a letter inside a case-insensitive literal'))
     P.append(('ci-escaped-letter-class', rule('[[\\141]]'), [N('Alternate', '', [CH(97), CH(65)])],
               'an escape that denotes a letter inside [[…]]'))
+    P.append(('ci-nonascii-titlecase', rule('"\u01c5"'), [N('Alternate', '', [CH(0x1c6), CH(0x1c4), CH(0x1c5)])],
+              'a title case letter (ǅ) in a case-insensitive literal matches in lower case, in upper case and as written'))
+    P.append(('ci-nonascii-nonbmp', rule('[[\U00010428]]'), [N('Alternate', '', [CH(0x10428), CH(0x10400)])], 'a cased letter outside the BMP (Deseret 𐐨)'))
+    P.append(('ci-nonascii-dotted-I', rule('"\u0130"'), [N('Alternate', '', [CH(0x69), CH(0x130)])],
+              'İ (U+0130): its lower case is i (UnicodeData simple mapping; the full mapping i + U+0307 is two characters)'))
+    P.append(('ci-nonascii-uncased', rule('"1-\u6c49\u00df"'), [N('Sequence', '', [CH(49), CH(45), CH(0x6c49), CH(0xdf)])],
+              'characters without case — digit, punctuation, 汉, ß (no one-character upper case) — stay plain characters'))
+    P.append(('ci-escaped-letter-mixed', rule('"\\101b\\0x63" [[\\0x44\\145]]'),
+              [N('Sequence', '', [N('Alternate', '', [CH(97), CH(65)]), N('Alternate', '', [CH(98), CH(66)]), N('Alternate', '', [CH(99), CH(67)]),
+                                  N('Alternate', '', [CH(100), CH(68), N('Alternate', '', [CH(101), CH(69)])])])],
+              'escaped and raw letters mixed in one case-insensitive literal / class'))
+    P.append(('ci-range-nonascii', rule('[[\u00e0-\u00fe]]'), [N('Alternate', '', [N('Range', '', [CH(0xe0), CH(0xfe)]), N('Range', '', [CH(0xc0), CH(0xde)])])],
+              '[[à-þ]]: a case-insensitive range with bounds outside ASCII'))
+    P.append(('ci-range-escaped-bounds', rule('[[\\0x61-\\172]]'), [N('Alternate', '', [N('Range', '', [CH(97), CH(122)]), N('Range', '', [CH(65), CH(90)])])],
+              '[[a-z]] with both bounds written as escapes'))
     P.append(('ci-range-mixed-A-z', rule('[[A-z]]'), None, '[[A-z]]: members 0x5b-0x60 ([\\]^_`) of [A-z] are lost by folding the bounds'))
     P.append(('ci-range-mixed-space-Z', rule('[[ -Z]]'), None, '[[ -Z]]: folding the bounds adds [\\]^_` and the range 0x5b-0x60'))
     P.append(('ci-range-a-Z', rule('[[a-Z]]'), None, '[[a-Z]]: [a-Z] is empty, the folded class is [a-z]/[A-Z]'))
@@ -1093,7 +1168,7 @@ def main():
     st = g['stats']
     summary = {'wellformed': len(g['well']), 'systematic': sum(1 for c in g['well'] if c['kind'] == 'systematic'),
                'malformed': len(g['malformed']), 'probes': len(g['probes']), 'escape_rows': g['escape_rows']}
-    for grp in ('construct', 'escape', 'spelling', 'malformed'):
+    for grp in ('construct', 'escape', 'spelling', 'malformed', 'ci'):
         summary[grp + '_counts'] = dict(sorted(st.get(grp, {}).items()))
     ec = st.get('escape-context', {})
     summary['escape_kind_x_context_cells'] = len(ec)
